@@ -514,7 +514,12 @@ class Constructor(Function):
 	@override
 	def match_feature(cls, via: Node) -> bool:
 		# @see Function.symbol
-		return via._by('function_def_raw.name').tokens == '__init__'
+		if via._by('function_def_raw.name').tokens != '__init__':
+			return False
+
+		# XXX クラス直下に定義された場合のみコンストラクターと見做す @see Closure.match_feature
+		elems = via._full_path.de_identify().elements
+		return len(elems) >= 3 and elems[-3] == 'class_def_raw'
 
 	@property
 	def is_abstract(self) -> bool:
